@@ -296,7 +296,7 @@ def run(eng, rep, tier):
         if any(av.alias & m.result.alias for m in mins):
             return True
         return bool(av.alias) and all(l[0].startswith("fresh:") and l[1] and l[1][-1] in ("_dfa", "dfa") for l in av.alias)
-    okb = len(boxes) >= 2 and bool(mins) and bool(rx) and all(ev.args and _from_min(ev.args[0]) for ev in boxes)
+    okb = len(boxes) >= 1 and bool(mins) and bool(rx) and all(ev.args and _from_min(ev.args[0]) for ev in boxes)
     ob.decide("R1", "C20.3", fe, "box=minimised-regex-automaton", okb,
               "each box holds Regex(body).to_epsilon_nfa().minimize()",
               "a box of from_ebnf is not the minimised automaton of its body's regex", se, site=site_of(prog, fe, fe.node))
